@@ -38,6 +38,12 @@ the failure key names the witness CLASS:
         (<queries>: "time-or-listing-query" = queries that read times, i.e. fill the memo, or that handed links down; others by name)
   (group: listing | times | acquisition_indices | to_stim | copy; "listing" as a query name = a query that handed links down)
 
+Per-input reporting: the deterministic families (K corpus, T templates, X exhaustive: the same inputs in every run of a tier, whatever
+the seed; they run before the seeded-random families) report EVERY failing input, not only one witness per class: each failure record
+carries "instances": {"complete", "count", "fps"} with fingerprint = sha1(canonical JSON of {program, history as enumerated, key})[:12],
+and <out>.instances.json holds {fp: {key, witness, observed, required, minimal_history, ...}}.  --replay of such a single-input record
+re-evaluates just that input.
+
 See bounded/README.md for the command line and the output format.
 """
 import os
